@@ -1,8 +1,12 @@
 (* Property theorems for C18 -- statements only; proofs are `exact` of lemmas.
    Model: C18/Append.v (appending writer, fresh and long-lived reader) over C12/Fs.v. *)
 From Coq Require Import NArith Arith List Bool Lia.
-From GD Require Import C12.Fs C12.FlushProto C12.FlushProofs C12.FlushTheorems C18.Append C18.AppendProofs.
+From GD Require Import C12.Fs C12.FlushProto C12.FlushProofs C12.FlushTheorems C18.Append C18.AppendProofs Gen.RawShape.
 Import ListNotations.
+
+(* the translator recognised the anchors of raw.c the model relies on *)
+Theorem raw_shape_recognised : raw_shape_ok = true.
+Proof. reflexivity. Qed.
 
 Section Fresh.
   Variables (d : fd) (p : path) (chunks : list content) (st : state) (fsz : nat).
@@ -42,17 +46,36 @@ Proof.
   destruct (crash_atomic_lemma cl tfd [f] k j st S f (or_introl eq_refl)) as [E | E]; rewrite E; split; auto; discriminate.
 Qed.
 
-(* full statement for a handle that stays open: sequential reads return the
-   bytes the writer wrote *)
-Definition long_lived_consistent_statement : Prop :=
-  forall sz c1 c2 r n, (exists t, c2 = c1 ++ t) ->
-    let (got1, r1) := rd_read sz c1 r (rpos r) n in
-    let (got2, _) := rd_read sz c2 r1 (rpos r1) n in
-    got2 = firstn (length got2) (skipn (rpos r1 * sz) c2).
+(* full statement for a handle that stays open (fx = the instance of
+   _GD_RawRead): a read through an aligned handle returns exactly the bytes of
+   whole samples starting at the requested sample and leaves the handle aligned *)
+Definition long_lived_consistent_statement (fx : bool) : Prop :=
+  forall sz c r s0 n, sz <> 0 -> aligned sz r ->
+    let res := rd_read fx sz c r s0 n in
+    fst res = firstn (length (fst res)) (skipn (s0 * sz) c) /\
+    aligned sz (snd res) /\
+    rpos (snd res) * sz = s0 * sz + length (fst res) /\
+    (exists k, length (fst res) = k * sz).
 
-(* refuted: a read that consumed part of a trailing sample leaves the
-   descriptor inside the sample while pos counts whole samples; the next
-   sequential read skips the seek and returns shifted bytes *)
+(* holds when _GD_RawRead steps back over a trailing partial sample ... *)
+Theorem long_lived_fixed : long_lived_consistent_statement true.
+Proof. exact rd_read_fixed. Qed.
+
+(* ... and is refuted when it does not (raw.c before proposed_fixes/C18-1.diff):
+   the first read leaves the descriptor inside a sample while pos counts whole
+   samples; the next sequential read skips the seek and returns shifted bytes *)
 Theorem long_lived_refuted :
   fst dz_r1 = [1; 0; 2; 0]%N /\ fst dz_r2 <> firstn 4 (skipn 4 dz_c2) /\ fst dz_r2 = [0; 4]%N.
 Proof. exact desync_witness. Qed.
+
+Theorem long_lived_refuted_statement : ~ long_lived_consistent_statement false.
+Proof.
+  intros H.
+  destruct (H 2 dz_c1 (mkrd 0 0) 0 10 ltac:(discriminate) eq_refl) as (_ & A & _).
+  vm_compute in A. discriminate.
+Qed.
+
+(* the instance that describes the current source *)
+Theorem long_lived_for_code :
+  if read_steps_back then long_lived_consistent_statement true else ~ long_lived_consistent_statement false.
+Proof. unfold read_steps_back; simpl; first [exact rd_read_fixed | exact long_lived_refuted_statement]. Qed.
